@@ -380,6 +380,8 @@ def _validate_batch(trace, module, cfg, workers):
             raise tlc.TLCError('no verdict for unit %s' % t['id'])
         if v['ok']:
             out.append({'id': t['id'], 'ok': True, 'why': '', 'by': 'tlc-exact'})
+        elif isinstance(v.get('exp'), dict) and v['exp'].get('err') == 'undetermined':
+            out.append({'id': t['id'], 'ok': None, 'why': 'undetermined by VTL (not judged)'})
         else:
             ok, why = values.result_close(v['exp'], t['obs'], t['cc'])
             out.append({'id': t['id'], 'ok': ok, 'why': why, 'exp': v['exp'], 'by': 'tlc-expected+tolerance'})
